@@ -204,6 +204,17 @@ def run_placed(case, res=None):
             edb2 = sch.EDBSetup(key2, db)
             r1 = reads_of(scheme, sch, key1, edb1, db)
             r2 = reads_of(scheme, sch, key2, edb2, db)
+        # a third setup the way a NEW interpreter would do it: module-level state of the construction module is fresh
+        # (module reloaded), new scheme object, different entropy; same key bytes where placement is not key-derived
+        import importlib
+        import sys as _sys
+        modname = "schemes.%s.construction" % scheme
+        with entropy((case["seed"], "fresh-interpreter")):
+            mod = importlib.reload(_sys.modules[modname]) if modname in _sys.modules else importlib.import_module(modname)
+            sch3 = getattr(mod, type(sch).__name__)(cfg)
+            key3 = sch3.KeyGen() if scheme == "CGKO06.SSE1" else loader.SSEKey.deserialize(key1.serialize(), loader.SSEConfig(dict(cfg)))
+            edb3 = sch3.EDBSetup(key3, db)
+            r3 = reads_of(scheme, sch3, key3, edb3, db)
     except Violation:
         raise
     except Exception as e:
@@ -232,6 +243,10 @@ def run_placed(case, res=None):
         if r1 == r2:
             raise Violation("%s: two setups of the same database read exactly the same slots for every keyword (%d block reads): "
                             "placement is not (pseudo-)random" % (scheme, m), "%s:placement_repeats" % scheme)
+        if r1 == r3:
+            raise Violation("%s: a setup in a fresh interpreter state (construction module reloaded, new scheme object, other entropy) "
+                            "reads exactly the same slots as the first one (%d block reads): placement does not depend on fresh randomness" % (
+                                scheme, m), "%s:placement_repeats_across_interpreters" % scheme)
         if scheme != "DP17.Pi":
             seq = flat1
             if scheme == "CJJ14.Pi2Lev":
